@@ -105,4 +105,5 @@ Inductive op :=
 | OProcess (e:evt) (val:list nat) (plan:list (nat * cmd))
 | OEnqueue (e:evt)
 | ODrain (val:list nat) (plan:list (nat * cmd))
-| ODrain1 (val:list nat) (plan:list (nat * cmd)).
+| ODrain1 (val:list nat) (plan:list (nat * cmd))
+| OReset.                 (* destroy the machine object and construct a fresh one *)
